@@ -315,9 +315,10 @@ func keys(m algz.DpSolvers[item]) []int {
 // ---------------------------------------------------------------- maximal cliques
 
 type graphCase struct {
-	N     int
-	Edges [][2]int
-	Order []int // permutation applied to the construction steps
+	N       int
+	Edges   [][2]int
+	Order   []int // permutation applied to the construction steps
+	QueryAt []int // GetMaximalCliques is also called after this many construction steps (incremental use)
 }
 
 func genGraph(t *rapid.T) graphCase {
@@ -333,6 +334,9 @@ func genGraph(t *rapid.T) graphCase {
 	}
 	steps := n + len(c.Edges)
 	c.Order = rapid.Permutation(seq(steps)).Draw(t, "order")
+	if rapid.Bool().Draw(t, "incremental") {
+		c.QueryAt = rapid.SliceOfN(rapid.IntRange(1, steps), 1, 3).Draw(t, "queryAt")
+	}
 	return c
 }
 
@@ -344,24 +348,11 @@ func seq(n int) []int {
 	return s
 }
 
-func runGraph(c graphCase, r *pb.Rec) error {
-	if c.N < 1 || c.N > 12 || len(c.Order) != c.N+len(c.Edges) {
-		return nil
-	}
-	adj := make([][]bool, c.N)
-	for i := range adj {
-		adj[i] = make([]bool, c.N)
-	}
-	for _, e := range c.Edges {
-		if e[0] < 0 || e[1] < 0 || e[0] >= c.N || e[1] >= c.N || e[0] == e[1] {
-			return nil
-		}
-		adj[e[0]][e[1]], adj[e[1]][e[0]] = true, true
-	}
-	// brute force: all maximal cliques as bitmasks
+// maximalCliques is the brute force over the vertices present so far.
+func maximalCliques(n int, adj [][]bool, present int) map[int]bool {
 	isClique := func(m int) bool {
-		for i := 0; i < c.N; i++ {
-			for j := i + 1; j < c.N; j++ {
+		for i := 0; i < n; i++ {
+			for j := i + 1; j < n; j++ {
 				if m>>i&1 == 1 && m>>j&1 == 1 && !adj[i][j] {
 					return false
 				}
@@ -370,13 +361,13 @@ func runGraph(c graphCase, r *pb.Rec) error {
 		return true
 	}
 	want := map[int]bool{}
-	for m := 1; m < 1<<c.N; m++ {
-		if !isClique(m) {
+	for m := 1; m < 1<<n; m++ {
+		if m&^present != 0 || !isClique(m) {
 			continue
 		}
 		maximal := true
-		for v := 0; v < c.N && maximal; v++ {
-			if m>>v&1 == 0 && isClique(m|1<<v) {
+		for v := 0; v < n && maximal; v++ {
+			if present>>v&1 == 1 && m>>v&1 == 0 && isClique(m|1<<v) {
 				maximal = false
 			}
 		}
@@ -384,16 +375,67 @@ func runGraph(c graphCase, r *pb.Rec) error {
 			want[m] = true
 		}
 	}
+	return want
+}
+
+func compareCliques(cl [][]int, want map[int]bool, where string) error {
+	got := map[int]int{}
+	for _, q := range cl {
+		m := 0
+		for _, v := range q {
+			if m>>v&1 == 1 {
+				return fmt.Errorf("%s: clique %v repeats a vertex", where, q)
+			}
+			m |= 1 << v
+		}
+		got[m]++
+	}
+	for m, k := range got {
+		if !want[m] {
+			return fmt.Errorf("%s: returned vertex set %b which is not a maximal clique of the current graph; all returned: %v", where, m, cl)
+		}
+		if k != 1 {
+			return fmt.Errorf("%s: maximal clique %b returned %d times", where, m, k)
+		}
+	}
+	for m := range want {
+		if got[m] == 0 {
+			return fmt.Errorf("%s: maximal clique %b missing; returned %v", where, m, cl)
+		}
+	}
+	return nil
+}
+
+func runGraph(c graphCase, r *pb.Rec) error {
+	if c.N < 1 || c.N > 12 || len(c.Order) != c.N+len(c.Edges) {
+		return nil
+	}
+	for _, e := range c.Edges {
+		if e[0] < 0 || e[1] < 0 || e[0] >= c.N || e[1] >= c.N || e[0] == e[1] {
+			return nil
+		}
+	}
+	queryAt := map[int]bool{}
+	for _, q := range c.QueryAt {
+		queryAt[q] = true
+	}
+	var final map[int]bool
 	for rep := 0; rep < reps(); rep++ {
 		var g algz.Graph[int]
+		adj := make([][]bool, c.N)
+		for i := range adj {
+			adj[i] = make([]bool, c.N)
+		}
+		present := 0
 		seen := map[int]bool{}
-		for _, s := range c.Order {
+		for k, s := range c.Order {
 			if s < 0 || s >= len(c.Order) || seen[s] {
 				return nil
 			}
 			seen[s] = true
 			if s < c.N {
 				g.AddNode(s)
+				present |= 1 << s
 			} else {
 				e := c.Edges[s-c.N]
 				if (s+rep)%2 == 0 {
@@ -401,47 +443,36 @@ func runGraph(c graphCase, r *pb.Rec) error {
 				} else {
 					g.AddUndirectedEdge(e[1], e[0])
 				}
+				adj[e[0]][e[1]], adj[e[1]][e[0]] = true, true
+				present |= 1<<e[0] | 1<<e[1]
+			}
+			if queryAt[k+1] && k+1 < len(c.Order) {
+				// the graph is queried while it is still being built: later queries must see later edges
+				where := fmt.Sprintf("edges %v on %d vertices, query after %d of %d construction steps (order %v)", c.Edges, c.N, k+1, len(c.Order), c.Order)
+				if err := compareCliques(g.GetMaximalCliques(), maximalCliques(c.N, adj, present), where); err != nil {
+					return err
+				}
+				r.Class("queried while being built")
 			}
 		}
 		if g.Len() != c.N {
 			return fmt.Errorf("graph has %d nodes, want %d", g.Len(), c.N)
 		}
-		got := map[int]int{}
-		cl := g.GetMaximalCliques()
-		for _, q := range cl {
-			m := 0
-			for _, v := range q {
-				if m>>v&1 == 1 {
-					return fmt.Errorf("clique %v repeats a vertex", q)
-				}
-				m |= 1 << v
-			}
-			got[m]++
-		}
-		for m, k := range got {
-			if !want[m] {
-				return fmt.Errorf("edges %v on %d vertices: returned %v (mask %b) which is not a maximal clique; all returned: %v", c.Edges, c.N, m, m, cl)
-			}
-			if k != 1 {
-				return fmt.Errorf("edges %v on %d vertices: maximal clique mask %b returned %d times", c.Edges, c.N, m, k)
-			}
-		}
-		for m := range want {
-			if got[m] == 0 {
-				return fmt.Errorf("edges %v on %d vertices: maximal clique mask %b missing; returned %v", c.Edges, c.N, m, cl)
-			}
+		final = maximalCliques(c.N, adj, present)
+		if err := compareCliques(g.GetMaximalCliques(), final, fmt.Sprintf("edges %v on %d vertices (order %v, earlier queries at %v)", c.Edges, c.N, c.Order, c.QueryAt)); err != nil {
+			return err
 		}
 	}
 	overlap := false
-	for a := range want {
-		for b := range want {
+	for a := range final {
+		for b := range final {
 			if a != b && a&b != 0 {
 				overlap = true
 			}
 		}
 	}
 	r.ClassIf(len(c.Edges) == 0, "edgeless graph")
-	r.ClassIf(len(want) == 1, "complete graph / single clique")
+	r.ClassIf(len(final) == 1, "complete graph / single clique")
 	r.NonTrivialIf(overlap)
 	return nil
 }
@@ -453,7 +484,7 @@ func init() {
 	pb.Register("dp_solvers", pb.Options{Base: 3000, Required: []string{"tie-breaker replaced", "overflow possible", "smallest overshoot returned", "empty input"},
 		Rule: "FindDpSolvers over items with values 1..6, max 0..sum+2, with/without overflow and tie-breakers, 5 executions per case; oracle: brute force subset sums (every key sums exactly with distinct ids, every attainable total <= max is a key, smallest overshoot is a key when allowed, no key > max otherwise), Best(m) = largest attainable <= m, BestAllowMinOverflow = exact or smallest overshoot; non-trivial = n >= 4 with equal values"},
 		genDp, runDp)
-	pb.Register("maximal_cliques", pb.Options{Base: 3000, Required: []string{"edgeless graph", "complete graph / single clique"},
-		Rule: "undirected simple graphs with 1..10 vertices, each edge drawn with density 0.1..0.9, built with AddNode/AddUndirectedEdge in a drawn order, 5 executions per case; oracle: brute-force set of maximal cliques, each returned exactly once and nothing else; non-trivial = >= 2 overlapping maximal cliques"},
+	pb.Register("maximal_cliques", pb.Options{Base: 3000, Required: []string{"edgeless graph", "complete graph / single clique", "queried while being built"},
+		Rule: "undirected simple graphs with 1..10 vertices, each edge drawn with density 0.1..0.9, built with AddNode/AddUndirectedEdge in a drawn order, half of the cases also query GetMaximalCliques at drawn points while the graph is still being built, 5 executions per case; oracle: brute-force set of maximal cliques, each returned exactly once and nothing else; non-trivial = >= 2 overlapping maximal cliques"},
 		genGraph, runGraph)
 }
